@@ -135,9 +135,11 @@ class AnySeq(Opaque):
         vm.raise_("AttributeError", name)
 
     def m_iter(self, vm):
+        vm.ctx.notes.append(("overapprox", self.name))
         return SymStream(f"held-back-{self.name}", lambda it, i: self.member(it), length=vm.ctx.fresh_int("n_held"))
 
     def m_contains(self, vm, k):
+        vm.ctx.notes.append(("overapprox", self.name))
         return SBool(vm.ctx.fresh_bool("in_held"))
 
     def m_truth(self, vm):
@@ -147,4 +149,25 @@ class AnySeq(Opaque):
         return None
 
     def m_getitem(self, vm, k):
+        vm.ctx.notes.append(("overapprox", self.name))
         return self.member(vm)
+
+
+def arbitrary_class_state(vm, cls_, member):
+    """Replace every class-level container of `cls_` and its bases that the source initialises EMPTY ({} / [] / set() / dict() ...)
+    -- i.e. state shared by all instances and filled at run time -- by a container of unknown content."""
+    import ast as _ast
+    from pyvc.values import PyDict, PyList, PySet
+    from pyvc.repo import ClassInfo
+    done = []
+    for c in cls_.mro(vm.loader):
+        if not isinstance(c, ClassInfo):
+            continue
+        for name, expr in list(c.class_attrs.items()):
+            empty = (isinstance(expr, (_ast.Dict, _ast.List, _ast.Set)) and not (getattr(expr, "keys", None) or getattr(expr, "elts", None))) or \
+                    (isinstance(expr, _ast.Call) and not expr.args and not expr.keywords and _ast.unparse(expr.func).split(".")[-1] in
+                     ("dict", "list", "set", "defaultdict", "OrderedDict", "WeakValueDictionary", "WeakKeyDictionary"))
+            if empty:
+                c.class_attr_vals[name] = AnySeq(f"{c.name}.{name}", member)
+                done.append(f"{c.name}.{name}")
+    return done
